@@ -259,7 +259,10 @@ def main():
     # which functions of the library mention the order list `keys`
     facts["keysMentions"] = sorted(set(name for name, body in funcs_of(patch) + funcs_of(merge) if re.search(r"\.keys\b", body)))
     # package variables are never assigned outside their declaration
-    facts["packageVarWrites"] = len(re.findall(r"^\s*(?:jsonpatch\.)?(?:SupportNegativeIndices|AccumulatedCopySizeLimit)\s*=[^=]", patch + merge, re.M))
+    # (any package-level variable of patch.go / merge.go: plain, compound and indexed assignment, ++/--)
+    _pv = "|".join(sorted(facts["packageVars"])) or "SupportNegativeIndices"
+    _code = re.sub(r"^var \(.*?^\)", "", patch + "\n" + merge, flags=re.S | re.M)      # declarations are not writes
+    facts["packageVarWrites"] = len(re.findall(r"^\s+(?:jsonpatch\.)?(?:" + _pv + r")(?:\[[^\]]*\])?\s*(?:=[^=]|\+=|-=|\+\+|--|:=)", _code, re.M))
     # every pool Get in the codec's entry points is released by a deferred Put in the same function
     pools = {}
     for name in ("Unmarshal", "UnmarshalWithKeys", "UnmarshalValid", "UnmarshalValidWithKeys"):
